@@ -117,7 +117,7 @@ def catalog():
 
     # P8: text output attributes, dependency order differing from source order, enum names, arrays, nested struct
     p = Program("Texty")
-    p.enum("Kind", [("AA", 0), ("BB", 1), ("CC", 200)])
+    p.enum("Kind", [("AA", 0), ("BB_LONG", 1), ("CC", 200)], case="kCamelCase")
     inn = p.struct("TIn")
     inn.scalar("v", 0, 1)
     inn.scalar("sg", 1, 1, st="Int")
